@@ -16,7 +16,8 @@ RULE = ("random refreshed PUBO/PUSO/PCBO/PCSO models (3-7 variables for the tabl
         "lam in {None, constant >= threshold, constant == threshold, constant below threshold, callable |v|, "
         "callable 2|v|+1}, optional pairs hints. Non-trivial = the produced form contains >= 1 ancilla; "
         "distinct = digest of (class, terms, mapping, form, deg, lam kind, pairs)")
-TIERS = {"quick": {"shards": 8, "cases": 230}, "thorough": {"shards": 16, "cases": 6000}}
+TIERS = {"quick": {"shards": 8, "cases": 500}, "thorough": {"shards": 16, "cases": 12000}}
+FLOOR_BASE = {"quick": 230, "thorough": 6000}    # case counts the floors below were calibrated for; the launcher scales them
 CLASSES = ["PUBO", "PUSO", "PCBO", "PCSO"]
 FORMS = ["qubo", "quso", "pubo", "puso"]
 LAMS = ["none", "const-big", "const-exact", "const-small", "call-abs", "call-2abs1"]
